@@ -198,6 +198,9 @@ type c19Runner struct {
 	hasOpts      bool
 	dir          map[string][]byte // the dump directory between ops
 	dirCodec     retriever.CompressionCodec // codec of the fresh dump that created dir
+	srcVersion   int                        // bumped by srcadd
+	refKey       string                     // cache key of ref
+	ref          map[string][]byte          // uninterrupted dump of the current source with the current options
 }
 
 func (s c19Suite) NewRunner(stats *Stats) Runner {
@@ -340,6 +343,7 @@ func (r *c19Runner) Step(_ []string, raw string) string {
 			return "bad-op"
 		}
 		r.src.db.AddNode(t[1], id, nil, nil)
+		r.srcVersion++
 		return "ok"
 	case len(t) == 1 && t[0] == "final":
 		return r.final()
@@ -411,11 +415,15 @@ func normaliseManifest(b []byte) []byte {
 func (r *c19Runner) final() string {
 	return withTempDir(func(dir string) string {
 		r.src.db.FailFetchAt = 0
-		out := dir + "/ref"
-		if _, _, err := r.runDump(out, false, 0); err != nil {
-			return "err reference-dump " + errClass(err)
+		key := fmt.Sprintf("%s/%d/%d/%d", r.codec, r.batch, r.shard, r.srcVersion)
+		if r.ref == nil || r.refKey != key {
+			out := dir + "/ref"
+			if _, _, err := r.runDump(out, false, 0); err != nil {
+				return "err reference-dump " + errClass(err)
+			}
+			r.ref, r.refKey = readTree(out), key
 		}
-		ref := readTree(out)
+		ref := r.ref
 		var diffs []string
 		for _, p := range sortedKeys(ref) {
 			a, ok := r.dir[p]
